@@ -91,6 +91,13 @@ def generate(seed, tier):
         knobs = {"blocklimit": wrng.choice((1, 2, 3, 8, 128)), "compound": wrng.random() < 0.6}
         layouts.append({"ops": c06.layout_ops(wrng, rounds, merges=("none", "none", "optimize", "custom")), "knobs": knobs,
                         "refresh": mrng.random() < 0.4})
+    # 30% of the runs: after a layout has been measured, some of its documents are deleted and the index is
+    # optimized - the statistics behind the scores must then be those of the documents that are left
+    pr = random.Random("%s/post" % seed)
+    if pr.random() < 0.3 and key[0] >= 3:
+        dels = pr.sample(range(1, key[0] + 1), pr.randint(1, max(1, key[0] // 2)))
+        layouts[-1]["post"] = ([["writer", {}]] + [["del_term", "k", u"k%03d" % k_] for k_ in dels]
+                               + [["commit", {"merge": pr.choice(("optimize", "optimize", "default"))}]])
     qr = random.Random("%s/queries" % seed)
     w = mrng.choice(("bm25f", "bm25f", "bm25f_params", "bm25f_fieldb", "tfidf", "frequency", "pl2", "dfree", "multi", "reverse", "function",
                      "bm25f_final"))
@@ -388,6 +395,17 @@ def run_layout(record, li):
             s.count("probes")
             tables = measure(s, actor.ensure_index(), record, searcher=refreshed)
             check_layout(s, record, tables, li)
+            if lay.get("post"):
+                actor.run(lay["post"])
+                rdr = actor.ensure_index().reader()
+                try:
+                    clean = not rdr.has_deletions()
+                finally:
+                    rdr.close()
+                if clean:
+                    # nothing deleted is left in the index: formula and composition on the live documents
+                    s.count("post_delete_optimize_checks")
+                    check_layout(s, record, measure(s, actor.ensure_index(), record), li)
             st = s.full_stats()
             st["events"] = s.k.seq
             st["sim_seconds"] = (s.k.now_us - 1_700_000_000_000_000) / 1e6
